@@ -95,7 +95,8 @@ Section Cycles.
   Qed.
 
   (** the shape is established by DEL; UNIT and Unreachable keep it *)
-  Theorem cycles_post (G G' : gram) : wf G -> cycles_elim teqb neqb fresh G = Ok G' -> no_cycle neqb G' = true.
+  Lemma cycles_shape (G G' : gram) : wf G -> cycles_elim teqb neqb fresh G = Ok G' ->
+    eps_only_start G' /\ no_unit G' = true.
   Proof.
     intros Hwf H. unfold cycles_elim in H.
     apply bind_ok in H. destruct H as (G1 & H1 & H).
@@ -116,10 +117,15 @@ Section Cycles.
       - rewrite Hh in Hr. eapply unit_reach_start; eauto.
       - intros q' Hq'. apply Hin in Hq'. destruct Hq' as (A' & p' & _ & _ & Hp' & _ & ->). simpl. auto. }
     unfold unreachable_elim in H. apply bind_ok in H. destruct H as (rn & _ & H). inversion H; subst G'. clear H.
-    apply no_cycle_of_shape.
+    split.
     - intros q Hq Hb. simpl in *. apply filter_In in Hq. destruct Hq as [Hq _].
       destruct (He2 q Hq Hb) as [Hh Hsnr]. split; auto.
       intros q' Hq'. apply filter_In in Hq'. apply Hsnr, Hq'.
     - unfold no_unit in *. rewrite forallb_forall in *. simpl. intros q Hq. apply filter_In in Hq. apply Hnu2, Hq.
+  Qed.
+
+  Theorem cycles_post (G G' : gram) : wf G -> cycles_elim teqb neqb fresh G = Ok G' -> no_cycle neqb G' = true.
+  Proof.
+    intros Hwf H. destruct (cycles_shape G G' Hwf H) as [He Hnu]. now apply no_cycle_of_shape.
   Qed.
 End Cycles.
